@@ -64,6 +64,7 @@ type R struct {
 	Incomplete []string            `json:"incomplete"` // reasons the run is not exhaustive
 	HarnessErr []string            `json:"harness_err"`
 	sampleSeen int64
+	vcount     map[string]int
 }
 
 func NewR(c *Check, tier string) *R {
@@ -164,6 +165,22 @@ func (r *R) HarnessError(f string, a ...any) {
 	r.mu.Lock()
 	r.HarnessErr = append(r.HarnessErr, fmt.Sprintf(f, a...))
 	r.mu.Unlock()
+}
+
+// Want reports whether another violation with this key would still be recorded (cheap guard
+// to skip formatting when a key already overflowed).
+func (r *R) Want(key string) bool {
+	r.mu.Lock()
+	defer r.mu.Unlock()
+	if r.vcount == nil {
+		r.vcount = map[string]int{}
+	}
+	r.vcount[key]++
+	if r.vcount[key] > 3 {
+		r.Counters["violations_total"]++
+		return false
+	}
+	return true
 }
 
 // Violation records a property violation. key identifies the specific failing input / call
